@@ -163,3 +163,104 @@ Proof.
     destruct S2 as [H|[H|H]]; [left; exact H | right; left; apply near_window; exact H | right; right; apply near_window; exact H].
 Qed.
 End Item.
+
+(* ---------- reading check_small_item and run_small ---------- *)
+Lemma orders_ok_sound : forall n o, orders_ok n o = true -> (0 <= o_lo o)%Z /\ (o_lo o < o_hi o)%Z /\ (o_hi o <= n + 1)%Z.
+Proof.
+  intros n o H. unfold orders_ok in H. apply andb_prop in H as [H H3]. apply andb_prop in H as [H1 H2].
+  apply Z.leb_le in H1. apply Z.ltb_lt in H2. apply Z.leb_le in H3. auto.
+Qed.
+Lemma is_full_sound : forall n o, is_full n o = true ->
+  o_lo o = 0%Z /\ o_hi o = (n + 1)%Z /\ o_amb o = false /\ exists v, o_conf o = XFin v /\ v == 1.
+Proof.
+  intros n o H. unfold is_full in H. apply andb_prop in H as [H H4]. apply andb_prop in H as [H H3].
+  apply andb_prop in H as [H1 H2]. apply Z.eqb_eq in H1. apply Z.eqb_eq in H2.
+  apply Bool.negb_true_iff in H3. apply xeq_fin in H4. auto.
+Qed.
+
+Definition code_ok (code : Z) : Prop := code = 0%Z \/ code = 1%Z.
+
+Lemma check_small_item_inv : forall P n x qb g e exact c o code t dg,
+  check_small_item P n x qb g e exact c o = (code, t, dg) -> code_ok code ->
+  o_n o = n /\ o_qbits o = qb /\ orders_ok n o = true /\
+  (if Qle_bool 1 c then is_full n o = true
+   else existsb (match_small (e * n) o) (small_outs P n g e exact c) = true).
+Proof.
+  intros P n x qb g e exact c o code t dg H Hc. unfold check_small_item in H. unfold code_ok in Hc.
+  destruct ((o_n o =? n)%Z && (o_qbits o =? qb)%Z) eqn:E1; cbn [negb] in H;
+    [|injection H as <- _ _; unfold V_MISMATCH in Hc; lia].
+  apply andb_prop in E1 as [E1 E1']. apply Z.eqb_eq in E1. apply Z.eqb_eq in E1'.
+  destruct (orders_ok n o) eqn:E2; cbn [negb] in H; [|injection H as <- _ _; unfold V_MISMATCH in Hc; lia].
+  split; [exact E1|]. split; [exact E1'|]. split; [reflexivity|].
+  destruct (Qle_bool 1 c) eqn:E3.
+  - destruct (is_full n o); [reflexivity | injection H as <- _ _; unfold V_MISMATCH in Hc; lia].
+  - cbv zeta in H.
+    match type of H with (if negb ?b then _ else _) = _ => destruct b end; cbn [negb] in H;
+      [|injection H as <- _ _; unfold V_MALFORMED in Hc; lia].
+    match type of H with (if ?b then _ else _) = _ => destruct b eqn:E5 end;
+      [reflexivity | injection H as <- _ _; unfold V_MISMATCH in Hc; lia].
+Qed.
+
+Lemma run_small_inv : forall P n x qb g e exact items idx tag border,
+  accepted (run_small P n x qb g e exact items idx tag border) ->
+  Forall (fun co : Q * qobs => exists code t dg,
+            check_small_item P n x qb g e exact (fst co) (snd co) = (code, t, dg) /\ code_ok code) items.
+Proof.
+  intros P n x qb g e exact. induction items as [|[c o] items IH]; intros idx tag border H; [constructor|].
+  cbn [run_small] in H. destruct (check_small_item P n x qb g e exact c o) as [[code t] dg] eqn:E.
+  destruct ((code =? V_OK)%Z || (code =? V_BORDERLINE)%Z) eqn:K.
+  - constructor; [|eapply IH; exact H]. exists code, t, dg. split; [exact E|].
+    apply orb_prop in K as [K|K]; apply Z.eqb_eq in K; [left | right]; exact K.
+  - apply accepted_verdict in H. exfalso. apply Bool.orb_false_iff in K as [K1 K2].
+    apply Z.eqb_neq in K1. apply Z.eqb_neq in K2. unfold V_OK, V_BORDERLINE in *. lia.
+Qed.
+
+(* the parser of an op-0 line (the same term as in check_C11) *)
+Definition p_op0 : parser (Z * Z * list (Q * qobs)) :=
+  do n <- pZ; do qb <- pZ; do items <- plist (do c <- pQ; do o <- p_qobs; pret (c, o)); pend (n, qb, items).
+
+Lemma p_op0_complete : forall rest v r, p_op0 rest = Some (v, r) -> r = [].
+Proof.
+  intros rest v r H. unfold p_op0 in H.
+  apply pbind_some in H as (n & r1 & _ & H). apply pbind_some in H as (qb & r2 & _ & H).
+  apply pbind_some in H as (items & r3 & _ & H). apply pend_some in H as (_ & _ & ->). reflexivity.
+Qed.
+
+Theorem check_C11_op0_sound : forall rest, accepted (check_C11 (11%Z :: 0%Z :: rest)) ->
+  exists n qb items q,
+    p_op0 rest = Some ((n, qb, items), []) /\ decode_bits qb = XFin q /\
+    (1 <= n <= 30)%Z /\ 0 <= q <= 1 /\
+    Forall (small_item_ok n qb q (exact_regime n q)) items.
+Proof.
+  intros rest H. cbn [check_C11] in H.
+  change (do n <- pZ; do qb <- pZ; do items <- plist (do c <- pQ; do o <- p_qobs; pret (c, o)); pend (n, qb, items))
+    with p_op0 in H.
+  destruct (p_op0 rest) as [[[[n qb] items] r]|] eqn:EP; [|apply accepted_verdict in H; unfold V_MALFORMED in H; lia].
+  pose proof (p_op0_complete _ _ _ EP) as ->.
+  destruct (decode_bits qb) as [| |q] eqn:Eq; try (apply accepted_verdict in H; unfold V_MALFORMED in H; lia).
+  destruct ((n <? 1)%Z || (qci_threshold <? n)%Z || Qltb q 0 || Qltb 1 q) eqn:G;
+    [apply accepted_verdict in H; unfold V_MALFORMED in H; lia|].
+  apply Bool.orb_false_iff in G as [G G4]. apply Bool.orb_false_iff in G as [G G3].
+  apply Bool.orb_false_iff in G as [G1 G2].
+  apply Z.ltb_ge in G1. apply Z.ltb_ge in G2. unfold qci_threshold in G2.
+  apply Qltb_false in G3. apply Qltb_false in G4.
+  cbv zeta in H.
+  destruct (Zpos (Qden q) =? Z.shiftl 1 (Z.log2 (Zpos (Qden q))))%Z eqn:Gd; cbn [negb] in H;
+    [|apply accepted_verdict in H; unfold V_MALFORMED in H; lia].
+  apply Z.eqb_eq in Gd.
+  match type of H with accepted (match ?t with Some _ => _ | None => _ end) => destruct t as [g|] eqn:Hg end;
+    [|apply accepted_verdict in H; unfold V_MALFORMED in H; lia].
+  exists n, qb, items, q. split; [reflexivity|]. split; [exact Eq|]. split; [lia|]. split; [split; assumption|].
+  apply run_small_inv in H. eapply Forall_impl; [|exact H].
+  intros [c o] (code & t & dg & E & Hc). cbn [fst snd] in E.
+  apply check_small_item_inv in E; [|exact Hc]. destruct E as (E1 & E2 & E3 & E4).
+  apply orders_ok_sound in E3 as (O1 & O2 & O3).
+  unfold small_item_ok. split; [exact E1|]. split; [exact E2|]. split; [exact O1|]. split; [exact O2|]. split; [exact O3|].
+  destruct (Qle_bool 1 c) eqn:E5.
+  - apply Qle_bool_iff in E5. split; [intros _; apply is_full_sound; exact E4 | intros; lra].
+  - apply Qle_bool_false in E5. split; [intros; lra|]. intros _.
+    assert (En : Z.of_nat (Z.to_nat n) = n) by (apply Z2Nat.id; lia).
+    pose proof (small_item_sound (Z.to_nat n) q (conj G3 G4) (Z.log2 (Zpos (Qden q))) (Z.log2_nonneg _) Gd
+                  (exact_regime n q) c o g) as S.
+    rewrite En in S. apply S; [exact Hg | exact E4].
+Qed.
